@@ -38,6 +38,12 @@ BLOCKS = {
     'single-variable': ("t = 2016.\nErr_Tolerance = 0.01\nMaxTime = 2", 0.0, [], []),
     # a lag of a lagged variable (two-period lag written as a chain), with an initial condition on the intermediate lag
     'lag-of-lag':     ("x = 0.5*LX + G\nLX = x(k-1)\nL2X = LX(k-1)\ny = 0.25*L2X + 1\nLX(0) = 3.0\nErr_Tolerance = 0.01\nMaxTime = 2\nexogenous\nG = [1., 2., 3.]", 0.0, ['x'], ['G']),
+    # block variables named like the generated module's own loop locals: their values must not steer the module's iteration
+    # (err starts above the tolerance and later falls below it / turns negative; cnt grows past the iteration cap)
+    'template-local-names': ("err = 0.5*LE + G - 2.0\nLE = err(k-1)\ncnt = LC + 250.0\nLC = cnt(k-1)\nx = 0.5*x + err\nerr(0) = 2.0\nErr_Tolerance = 0.01\nMaxTime = 2\n"
+                             "exogenous\nG = [1., 2., 3.]", 0.5, ['x'], ['G']),
+    'template-local-names-2': ("new_vector = 0.5*new_vector + G\norig_vector = new_vector + 1\nin_vec = LO + G\nLO = orig_vector(k-1)\nErr_Tolerance = 0.01\nMaxTime = 2\n"
+                               "exogenous\nG = [1., 2., 3.]", 0.5, ['new_vector'], ['G']),
     'static-user-time': ("x = 0.5*y + c\ny = 0.5*x + 1\nc = 2.0\nt = 2016.\nErr_Tolerance = 0.01\nMaxTime = 2", 0.5, ['x', 'y'], []),
 }
 
@@ -268,7 +274,9 @@ def run(tier, seed):
         else:
             chk.ob('sat' if o['viol'] else 'unsat', what + ': imports, runs, satisfies the block', distinct=('run', o['case'], o['history']))
         if o['viol']:
-            key = 'k-undefined' if "name 'k' is not defined" in o['viol']['why'] else 'module:%s:%s' % (o['case'], o['viol']['why'][:50])
+            import re as _re
+            mexc = _re.search(r'raises (\w+)\(', o['viol']['why'])
+            key = 'k-undefined' if "name 'k' is not defined" in o['viol']['why'] else ('module:%s:raises-%s' % (o['case'], mexc.group(1)) if mexc else 'module:%s:%s' % (o['case'], o['viol']['why'][:50]))
             chk.violation(key, what + ': ' + o['viol']['why'], REPLAY % dict(name=o['case'], vals=o['viol']['vals'], history=o['history']))
         if o['iter_equiv'] is not None:
             chk.ob('sat' if o['iter_equiv'] else 'unsat', what + ': Iterator body == parser equations', distinct=('iter', o['case'], o['history']))
